@@ -627,7 +627,10 @@ pub fn check_c23(tier: Tier) -> Report {
     let maxlen = if tier == Tier::Quick { 4 } else { 5 };
     let mut accepted_tokens = 0u64;
     for len in 1..=maxlen {
-        let all: Vec<String> = token_strings(len).filter(|t| tier == Tier::Thorough || len <= 3 || t.starts_with('(')).collect();
+        // quick: all strings up to length 3, length 4 only if they open a parenthesis; thorough: all up to
+        // length 4, length 5 only if they start with "( <instruction keyword>"
+        let kw_start = |t: &str| ["call", "seq", "par", "xor", "fold", "next", "new", "ap", "canon", "match", "mismatch", "fail", "null", "never"].iter().any(|k| t.starts_with(&format!("( {k} ")));
+        let all: Vec<String> = token_strings(len).filter(|t| if tier == Tier::Thorough { len <= 4 || kw_start(t) } else { len <= 3 || t.starts_with('(') }).collect();
         let res = par_map(&all, |t| c23_text2(t));
         for (t, (f, ok)) in all.iter().zip(res) {
             evals += 1;
@@ -700,7 +703,7 @@ pub fn check_c23(tier: Tier) -> Report {
     rep.cov("token_strings_accepted_by_the_parser", json!(accepted_tokens));
     rep.cov("ill_scoped_texts_rejected_by_the_parser", json!(agree_reject));
     rep.cov("well_scoped_texts_rejected_by_the_parser_for_other_reasons", json!(parser_stricter));
-    rep.cov("rule", json!(format!("totality: every string of 1..{maxlen} tokens (quick tier: length 4 only for strings that begin with an opening parenthesis) over the 26-token alphabet {:?} is parsed; the parser must return Err or an Ok tree without error nodes (tree walked through its own Serialize form) and never panic; scoping: every generated script of SEQ_3, STREAM, MAP, ERR and, for each (quick: every 7th and every script with a fold), every single scope mutation (one use renamed to an undefined name; a fold iterator used after / before its fold, in a sibling par branch, as iterable / match operand / ap source after the fold; next after its fold; next without fold; the two branches of a seq swapped): parse Ok must imply ScopeCheck accepts; non-trivial = texts ScopeCheck rejects", TOKENS)));
+    rep.cov("rule", json!(format!("totality: every string of 1..{maxlen} tokens (quick tier: length 4 only for strings that begin with an opening parenthesis; thorough tier: length 5 only for strings that begin with an opening parenthesis and an instruction keyword) over the 26-token alphabet {:?} is parsed; the parser must return Err or an Ok tree without error nodes (tree walked through its own Serialize form) and never panic; scoping: every generated script of SEQ_3, STREAM, MAP, ERR and, for each (quick: every 7th and every script with a fold), every single scope mutation (one use renamed to an undefined name; a fold iterator used after / before its fold, in a sibling par branch, as iterable / match operand / ap source after the fold; next after its fold; next without fold; the two branches of a seq swapped): parse Ok must imply ScopeCheck accepts; non-trivial = texts ScopeCheck rejects", TOKENS)));
     rep.cov("samples", json!(samples));
     rep
 }
